@@ -146,6 +146,14 @@ def install(model, names, L, table, events):
     return arrays
 
 
+def tree_eq(a, b):
+    if isinstance(a, tuple) and isinstance(b, tuple):
+        return len(a) == len(b) and all(tree_eq(x, y) for x, y in zip(a, b))
+    if isinstance(a, float) and isinstance(b, float) and math.isnan(a) and math.isnan(b):
+        return True
+    return type(a) == type(b) and a == b if not (isinstance(a, (int, float)) and isinstance(b, (int, float))) else (a == b and isinstance(a, bool) == isinstance(b, bool))
+
+
 def cmp_events(got, want):
     if len(got) != len(want):
         return f'event count {len(got)} vs {len(want)}'
@@ -158,12 +166,12 @@ def cmp_events(got, want):
         elif g[0] == 'w':
             if g[1:4] != w[1:4]:
                 return f'write target {i}: {g[:4]} vs {w[:4]}'
-            if g[4] != w[4]:
+            if not tree_eq(g[4], w[4]):
                 return f'write {i} term tree differs: code {g[4]} reference {w[4]}'
             if not approx(g[5], w[5]):
                 return f'write {i} value differs: code {g[5]} reference {w[5]}'
         elif g[0] == 'branch':
-            if g[1:] != w[1:]:
+            if not tree_eq(g[1:], w[1:]):
                 return f'branch {i}: {g} vs {w}'
         else:
             return f'event {i}: {g}'
